@@ -534,8 +534,45 @@ func runC18(c *Ctx) {
 			fc     *fnCFG
 		}
 		unit := []unitFn{{fd, lenObj, fc}}
+		// the length may also arrive as a parameter, from a caller that obtained it from the header-reading helper
+		// (read the header, then read the content): the caller and that helper belong to the unit as well
+		scopes := []unitFn{{fd, lenObj, fc}}
 		if lenObj != nil {
-			ast.Inspect(fd.Body, func(n ast.Node) bool {
+			pi, k := -1, 0
+			for _, prm := range fd.Type.Params.List {
+				for _, nm := range prm.Names {
+					if info.Defs[nm] == lenObj {
+						pi = k
+					}
+					k++
+				}
+			}
+			if pi >= 0 {
+				for _, cfd := range allFuncDecls(p) {
+					if cfd == fd || cfd.Body == nil {
+						continue
+					}
+					ast.Inspect(cfd.Body, func(n ast.Node) bool {
+						call, ok := n.(*ast.CallExpr)
+						if !ok || types.Object(calleeOf(info, call)) != info.Defs[fd.Name] || pi >= len(call.Args) {
+							return true
+						}
+						if aid, ok := ast.Unparen(call.Args[pi]).(*ast.Ident); ok {
+							u := unitFn{cfd, info.ObjectOf(aid), newFnCFG(cfd.Body, info)}
+							unit = append(unit, u)
+							scopes = append(scopes, u)
+						}
+						return true
+					})
+				}
+			}
+		}
+		for _, sc := range scopes {
+			lenObj := sc.lenObj
+			if lenObj == nil {
+				continue
+			}
+			ast.Inspect(sc.fd.Body, func(n ast.Node) bool {
 				as, ok := n.(*ast.AssignStmt)
 				if !ok || len(as.Rhs) != 1 {
 					return true
@@ -708,6 +745,49 @@ func runC18(c *Ctx) {
 				}
 				return true
 			})
+		}
+		// … or the line is split by strings.Cut at ":" (no index to slice at), and a line without one is rejected
+		cutGuarded := false
+		for _, u := range unit {
+			ast.Inspect(u.fd.Body, func(n ast.Node) bool {
+				blk, ok := n.(*ast.BlockStmt)
+				if !ok {
+					return true
+				}
+				for i, st := range blk.List {
+					as, ok := st.(*ast.AssignStmt)
+					if !ok || len(as.Lhs) != 3 || len(as.Rhs) != 1 || i+1 >= len(blk.List) {
+						continue
+					}
+					call, ok := as.Rhs[0].(*ast.CallExpr)
+					if !ok || len(call.Args) != 2 {
+						continue
+					}
+					if fn := calleeOf(info, call); fn == nil || fullName(fn) != "strings.Cut" {
+						continue
+					}
+					if sep, isC := constString(info, call.Args[1]); !isC || sep != ":" {
+						continue
+					}
+					fid, ok := as.Lhs[2].(*ast.Ident)
+					if !ok {
+						continue
+					}
+					if is, ok := blk.List[i+1].(*ast.IfStmt); ok && len(is.Body.List) > 0 {
+						if ue, ok := ast.Unparen(is.Cond).(*ast.UnaryExpr); ok && ue.Op == token.NOT {
+							if cid, ok := ast.Unparen(ue.X).(*ast.Ident); ok && info.ObjectOf(cid) == info.ObjectOf(fid) {
+								if ret, isRet := is.Body.List[len(is.Body.List)-1].(*ast.ReturnStmt); isRet && len(ret.Results) > 0 && types.ExprString(ret.Results[len(ret.Results)-1]) != "nil" {
+									cutGuarded = true
+								}
+							}
+						}
+					}
+				}
+				return true
+			})
+		}
+		if cutGuarded && nslice == 0 {
+			okSlice, nslice = true, 1
 		}
 		c.check(okSlice && nslice >= 1, "C18.R3", key+"|header-slices-guarded", c.pos(fd.Pos()), fmt.Sprintf("%d slice expressions dominated by the `< 0` rejection", nslice),
 			"a header line is sliced at the colon index without the `colon < 0` rejection dominating it: a header line without ':' panics")
